@@ -41,6 +41,9 @@ class Run:
         self.rows = None
         self.shared_objects = False   # some argument / result contained one object twice (see has_shared_object)
         # structural hashes (ids from the module-level INTERN table, comparable across runs)
+        # per parent job (model id): the demands for task expressions / conclusions of their jobs, in order:
+        # ("demand", expression id, created a job?) | ("conclude", expression id)      (Model/PendingExpr.v)
+        self.pending = {}
         self.c_args = []
         self.c_res = []
         self.c_node = []
@@ -200,6 +203,23 @@ def run_prog(prog, limits: dict, rng: random.Random, root_args=(), complete_prob
         return res, cached, call_hash
     s._get_cache = _get_cache
 
+    from redun.expression import SchedulerExpression, TaskExpression
+    from redun.scheduler import Job as _Job
+    orig_ea = s._evaluate_apply
+    expr_ids: dict = {}
+
+    def _evaluate_apply(expr, parent_job=None):
+        if (isinstance(expr, TaskExpression) and not isinstance(expr, SchedulerExpression)
+                and type(parent_job) is _Job and parent_job.id in ids):
+            ev = ["demand", expr_ids.setdefault(expr.get_hash(), len(expr_ids)), None]
+            R.pending.setdefault(ids[parent_job.id], []).append(ev)
+            n0 = len(parent_job.child_jobs)
+            r = orig_ea(expr, parent_job=parent_job)
+            ev[2] = len(parent_job.child_jobs) > n0
+            return r
+        return orig_ea(expr, parent_job=parent_job)
+    s._evaluate_apply = _evaluate_apply
+
     orig_enter = s._exec_job_main_thread
 
     def _exec_job_main_thread(job, eval_args):
@@ -251,6 +271,10 @@ def run_prog(prog, limits: dict, rng: random.Random, root_args=(), complete_prob
     def _resolve_job_main_thread(job, result):
         j = ids[job.id]
         replayed = bool(job.call_hash)          # call hash known before resolving: collapsed / replayed
+        if job.parent_job is not None and job.parent_job.id in ids and job.expr is not None:
+            # a callback that releases the expression's entry would be the first one of the promise
+            R.pending.setdefault(ids[job.parent_job.id], []).append(
+                ["conclude", expr_ids.setdefault(job.expr.get_hash(), len(expr_ids))])
         kids = [ids[ch.id] for ch in job.child_jobs if ch.call_hash and ch.id in ids]
         r = orig_resolve(job, result)
         R.call_hash[j] = job.call_hash
